@@ -295,6 +295,10 @@ func c34gen(c *Ctx) []string {
 	if r.Intn(3) == 0 {
 		pop = 18 + r.Intn(23) // enough to overflow a bucket
 	}
+	crowd := r.Intn(6) == 0 // one bucket, enough nodes to fill entries AND the replacement list
+	if crowd {
+		nb, pop = 1, 34+r.Intn(7)
+	}
 	var sb strings.Builder
 	sb.WriteString("reset 0")
 	bucketOf := map[int]int{}
@@ -317,7 +321,16 @@ func c34gen(c *Ctx) []string {
 	if r.Intn(5) == 0 {
 		nops = 100 + r.Intn(200)
 	}
-	if r.Intn(2) == 0 {
+	if crowd {
+		var l []string
+		for i := 1; i <= 16; i++ {
+			l = append(l, strconv.Itoa(i))
+		}
+		out = append(out, "stuff "+strings.Join(l, " "))
+		for i := 17; i <= pop; i++ {
+			out = append(out, fmt.Sprintf("add %d", i))
+		}
+	} else if r.Intn(2) == 0 {
 		// start from a well-filled table
 		var l []string
 		for i := 1; i <= pop; i++ {
